@@ -173,6 +173,9 @@ def run(ck):
         if rng.random() < 0.3:
             s = s[::-1]
         strings.append(s)
+    # decimal spellings of whole numbers of every magnitude (theorem cast_nat_roundtrip: for EVERY natural number the model hands all its digits to Python's int)
+    naturals = [str(_whole_number(rng, big=True)) for _ in range(ck.n(60, 400))] + [str(2 ** 53 + 1), str(2 ** 63 - 1), str(10 ** 18 + 1), "9" * 25]
+    strings += naturals
     strings = [s for s in dict.fromkeys(strings)]
     for s in strings:
         ask(f"cast {hx(s)}")
@@ -294,6 +297,13 @@ def run(ck):
             ck.count(("cast", s), bucket="cast_string:" + real.split(":")[0], sample={"string": s, "class": real, "model": r} if len(s) == 3 and s[0] == "1" else None)
             if real != r:
                 disagree("Model/TextCodec.castString", {"string": s, "model": r, "implementation": real})
+            if r == "int" and real == "int" and s.isascii():
+                # the model's `.int digits` carries the TEXT: the value is int(digits), every digit of it (never through a double or a machine integer)
+                v = cast_string(s)
+                ck.count(("cast-value", s), nontrivial=False, bucket="cast_string: whole number value" + (" beyond 2**53" if int(s) > 2 ** 53 else ""))
+                if type(v) is not int or v != int(s):
+                    ck.fail_case({"format": "csv", "clause": "whole number is not read back with its value", "beyond_2**53": int(s) > 2 ** 53},
+                                 {"text": s, "read_as": repr(v), "expected": int(s), "call": f"pygaps.utilities.string_utilities.cast_string({s!r})"})
             if d == "T":
                 in_domain.append(s)
                 # theorem-derived prediction: an in-domain text comes back as itself
@@ -545,7 +555,7 @@ def run(ck):
             # (AIF declares `user`, `date`, `instrument`, `material_batch` as text and `material_mass`, `activation_temperature` as numbers: not used as free keys)
             for k in rng.sample(["project", "operator2", "machine", "lab", "t_act", "comment", "DOI", "is_real", "n_runs"], rng.randint(0, 5)):
                 r = rng.random()
-                meta[k] = (rng.choice(texts) if r < 0.4 else rng.randint(0, 10 ** rng.randint(0, 9)) if r < 0.55 else
+                meta[k] = (rng.choice(texts) if r < 0.4 else _whole_number(rng) if r < 0.55 else
                            round(rng.uniform(-50, 500), rng.randint(1, 6)) if r < 0.72 else rng.choice(isogen.TEXT_FLOATS) if r < 0.8 else (rng.random() < 0.5))
             c["meta"] = meta
             # at most ONE of: a value outside the format's value domain / a metadata key of a special class / material properties with special names
@@ -688,6 +698,46 @@ def run(ck):
                     ck.count((fmt, c["kind"], i, "structure"), nontrivial=False, bucket=f"document structure {fmt}")
                     if bad:
                         disagree(f"Gen/Formats vs the document written by isotherm_to_{fmt}", {"class": c["kind"], "what": bad})
+        # -------------------------------------------------------------- B2. whole numbers of every magnitude as metadata AND material-property values (CSV, AIF)
+        # (Excel returns every whole number as a float - recorded S18-xl-int, generated for metadata in stream B -, so a material property that is an integer stays out there)
+        for i in range(ck.n(45, 300)):
+            c = isogen.content(rng, domain="text")
+            c["meta"] = {k: _whole_number(rng, big=True) for k in rng.sample(["stamp_ns", "serial", "n_runs", "barcode"], rng.randint(1, 2))}
+            if rng.random() < 0.6:
+                c["material_props"] = {**c["material_props"], rng.choice(["lot", "sample_nr"]): _whole_number(rng, big=True)}
+            try:
+                iso = _build(pg, c)
+            except Exception:
+                ck.count(("b2-build-refused", i), nontrivial=False, bucket="construction refused")
+                continue
+            before = isogen.observe(pg, iso)
+            for fmt in ("csv", "aif"):
+                target, sep = rng.choice(["string", "file"]), (rng.choice([",", ",", ";", "\t", "|"]) if fmt == "csv" else None)
+                sig = {"format": fmt, "class": c["kind"], "odd_value": None}
+                if c["kind"] == "point":
+                    sig["interleaved_marks"] = any(y < x for x, y in zip(c["branch"], c["branch"][1:]))
+                try:
+                    p = os.path.join(tmpdir, f"w{i}.{fmt}") if target == "file" else None
+                    if fmt == "csv":
+                        doc = isotherm_to_csv(iso, p, separator=sep)
+                        back = isotherm_from_csv(p if p else doc, separator=sep)
+                    else:
+                        doc = isotherm_to_aif(iso, p)
+                        back = isotherm_from_aif(p if p else doc)
+                except Exception as e:  # noqa
+                    ck.count((fmt, c["kind"], i, "b2"), bucket=f"whole numbers {fmt}:{c['kind']}:refused")
+                    ck.fail_case({**sig, "clause": "in-domain isotherm refused" if isinstance(e, pgError) else "in-domain isotherm raises", "error": type(e).__name__},
+                                 {"error": repr(e)[:300], "meta": _js(c["meta"]), "content": _content(c)})
+                    continue
+                after = isogen.observe(pg, back)
+                ck.count((fmt, c["kind"], i, "b2"), bucket=f"whole numbers {fmt}:{c['kind']}:ok" + (":material property" if any(isinstance(v, int) and not isinstance(v, bool) for v in c["material_props"].values()) else ""))
+                diffs = _diff(before, after, fmt, tol)
+                for where, a, b, vclass in diffs[:6]:
+                    ck.fail_case({**sig, "clause": "round trip differs", "where": where.split(" ")[0], "value_class": vclass},
+                                 {"where": where, "exported": a, "imported": b, "target": target, "separator": sep, "meta": _js(c["meta"]), "content": _content(c)})
+                if not diffs and back.iso_id != iso.iso_id:
+                    ck.fail_case({**sig, "clause": "identifier differs although content is equal"},
+                                 {"ids": [iso.iso_id, back.iso_id], "meta": _js(c["meta"]), "material_props": _js(c["material_props"]), "content": _content(c)})
         # -------------------------------------------------------------- C. texts the formats may not be able to carry: refused or equal, never different
         _ood_stream(ck, pg, tmpdir, texts, SECTION, MATP, tol,
                     dict(to_csv=isotherm_to_csv, from_csv=isotherm_from_csv, to_xl=isotherm_to_xl, from_xl=isotherm_from_xl, to_aif=isotherm_to_aif, from_aif=isotherm_from_aif, pgError=pgError))
@@ -698,6 +748,7 @@ def run(ck):
     ck.cov["correspondence_disagreements"] = n_dis
     ck.cov["in_domain_texts"] = len(in_domain)
     ck.cov["rule"] = ("A: grammar-directed and random strings over the model alphabet (number / near-number / none / bool / list spellings, blanks, separators, non-ASCII letters) through cast_string vs the Lean classes; "
+                      "decimal spellings of whole numbers of every magnitude (2**53±1, 2**63, 2**64, 2**100, 10**15…10**24 ± small, time_ns stamps, random 50-90 bit numbers) whose VALUE must be int(digits) exactly; "
                       "bracketed texts over the numeric alphabet through _from_list, lists / tuples of ints and floats through _to_string and back; str.replace / str.strip; material-property and custom keys through the "
                       "CSV reader and the AIF writer + reader on minimal documents; pressure columns with zeros and gaps in workbooks written with xlwt through the Excel reader; version texts through the gates; "
                       "generated tables against the imported objects and against the documents the writers produce; "
@@ -705,7 +756,10 @@ def run(ck):
                       "zero and negative temperatures, every model with given ranges and models fitted on data) with metadata from the format domain "
                       "(in-domain text as decided by the Lean predicate, non-negative ints, floats - a negative zero as metadata value and as material-property value in every run -, bools) plus AT MOST ONE of: an out-of-domain value (40 %), a last metadata key that begins with a section / dispatch prefix "
                       "or a material-property prefix of a format, taken from the generated tables (22 %), material properties whose names contain such a prefix at the start / inside / at the end (20 %); "
-                      "string and file targets; distinct = (format, class, content); "
+                      "string and file targets; distinct = (format, class, content); whole-number metadata of every magnitude (35 % of the integer draws beyond 10**9, see _whole_number; compared exactly); "
+                      "point isotherms built from a DataFrame whose ROW LABELS are not 0..n-1 in half of the point cases (shifted, one-based, iloc[::2] slice, boolean filter, text, reversed, permuted, float, far numbers: "
+                      "same points / marks / order, the constructor keeps the labels in data_raw); "
+                      "B2: CSV (five separators, string and file) and AIF x three classes with whole numbers of every magnitude as metadata values and as material-property values; "
                       "C: one format-significant character (, ; tab | newline CR quotes blank brackets = # _ $ : \\ and other punctuation; the separator in use and the format's own characters in every run, "
                       "the rest sampled) at one position class (start, middle, end, repeated at the end / start / inside, alone, alone repeated, both ends, several, wrapped in a pair) of a plain text used as "
                       "metadata value / metadata key / material name / material-property value / material-property name, x CSV under separators , ; tab | (string and file), AIF (string), Excel x three classes "
@@ -718,6 +772,8 @@ def run(ck):
                        "stream C leaves out (outside the stated key domain 'keys without separator or blank', see `_ood_region`): CSV keys beginning with a blank character, CSV keys with a line break "
                        "after which no line is refused, AIF keys / property names with a blank or ending in a blank character; the value regions of the former candidates C1, C2, C5, C6 are generated "
                        "(recorded S55-C07a…e), AIF file targets are generated (C4, repaired: S55-C07f)",
+                       "whole numbers above 1.8e308 are not generated (Excel: xlwt raises OverflowError at export - candidate, reported); an integer material property is not sent through Excel "
+                       "(comes back as a float, S18-xl-int family; integer METADATA goes through Excel and is matched by S18-xl-int, beyond 2**53 with lost digits); duplicated row labels are not generated",
                        "material-property names and metadata keys with a blank are outside the stated key domain (AIF writes them with underscores: theorem aifKey_blank_changed; tied in step A4)"]
 
 
@@ -1040,6 +1096,33 @@ def _ood_stream(ck, pg, tmpdir, pool, section, matp, tol, io):
                    {**detail, **info, **({"region entered, outcome is not the recorded one": region} if region is not None and not as_recorded else {})})
 
 
+def _whole_number(rng, big=False):
+    """a non-negative whole number of ANY magnitude (Python int): counts, but also serial / bar-code numbers and time_ns stamps - beyond 2**53 an integer is
+    in general not a double, beyond 2**63 / 2**64 not a machine integer; the formats write digits, so every one of them is inside the value domain"""
+    r = rng.random()
+    if not big and r < 0.65:
+        return rng.randint(0, 10 ** rng.randint(0, 9))
+    if r < 0.75:
+        k = rng.choice([53, 53, 54, 62, 63, 64, 80, 100])
+        return 2 ** k + rng.choice([-1, 0, 1, 1, 3, rng.randint(2, 10 ** 6)])
+    if r < 0.85:
+        return 10 ** rng.randint(15, 24) + rng.choice([-1, 1, 1, 7, rng.randint(2, 999)])
+    if r < 0.93:
+        return rng.randint(1_500_000_000, 1_900_000_000) * 10 ** 9 + rng.randint(0, 10 ** 9 - 1)       # a time.time_ns() stamp
+    return rng.getrandbits(rng.randint(50, 90)) | 1
+
+
+def _exact_ints(a, b):
+    """whole numbers are compared EXACTLY (a relative tolerance would accept 2**53 for 2**53 + 1), at any depth"""
+    if isinstance(a, dict) and isinstance(b, dict):
+        return all(_exact_ints(a[k], b[k]) for k in a if k in b)
+    if isinstance(a, (list, tuple)) and isinstance(b, (list, tuple)):
+        return all(_exact_ints(x, y) for x, y in zip(a, b))
+    if isinstance(a, int) and isinstance(b, int) and not isinstance(a, bool) and not isinstance(b, bool):
+        return a == b
+    return True
+
+
 def _is_negzero(v):
     return isinstance(v, float) and v == 0.0 and math.copysign(1.0, v) < 0
 
@@ -1075,6 +1158,10 @@ def _strengthen(rng, c):
                 if rng.random() < 0.6:
                     for j in rng.sample(range(n), rng.choice([1, 1, 2]) if n > 1 else 1):
                         col[j] = 0.0
+        # row labels of the table the isotherm is built from (the constructor keeps them in `data_raw`): every parser and every fixture of the repository
+        # has 0..n-1; a filtered / sliced / sorted / concatenated / text-labelled frame of a user has not.  Points, marks and order are the same content.
+        if rng.random() < 0.5:
+            c["row_labels"] = rng.choice(ROW_LABELS)
     elif c["kind"] == "model" and rng.random() < 0.35:
         k = rng.choice([4, 6, 9])
         ps = sorted(rng.uniform(0.01, 5.0) for _ in range(k))
@@ -1083,7 +1170,46 @@ def _strengthen(rng, c):
                        "loading": [a * b * p_ / (1 + b * p_) * (1 + rng.uniform(-0.02, 0.02)) for p_ in ps]}
 
 
+ROW_LABELS = ["shifted", "one-based", "every second row (sliced)", "filtered", "text", "reversed numbers", "permuted numbers", "float labels", "far numbers"]
+
+
+def _labelled_frame(c):
+    """the point table of `c` as a DataFrame whose ROW LABELS are not 0..n-1 (same points, same order)"""
+    import pandas as pd
+    n = len(c["pressure"])
+    cols = {"pressure": list(c["pressure"]), "loading": list(c["loading"]), **{k: list(v) for k, v in c["extra"].items()}}
+    kind = c["row_labels"]
+    if kind in ("every second row (sliced)", "filtered"):
+        # a longer table of which the isotherm's points are a selection: made by pandas itself (iloc slice / boolean filter), labels as pandas leaves them
+        step = 2 if kind.startswith("every") else 3
+        big = {k: [None] * (step * n) for k in cols}
+        keep = [False] * (step * n)
+        for i in range(n):
+            j = step * i + (step - 1 if kind == "filtered" else 0)
+            keep[j] = True
+            for k in cols:
+                big[k][j] = cols[k][i]
+        for k in cols:
+            fill = cols[k][0]
+            big[k] = [fill if v is None else v for v in big[k]]
+        df = pd.DataFrame(big)
+        df = df.iloc[::2] if kind.startswith("every") else df[pd.Series(keep)]
+        for k, v in c["extra"].items():          # dtype of whole-number columns as in the plain frame
+            if all(isinstance(x, int) for x in v):
+                df[k] = df[k].astype("int64")
+        return df
+    df = pd.DataFrame(cols)
+    df.index = {"shifted": list(range(3, 3 + n)), "one-based": list(range(1, n + 1)), "text": [f"pt{i}" for i in range(n)],
+                "reversed numbers": list(range(n - 1, -1, -1)), "permuted numbers": [(i * 7 + 3) % n if n % 7 else (i + 1) % n for i in range(n)],
+                "float labels": [0.5 + i for i in range(n)], "far numbers": [10 ** 6 + 10 * i for i in range(n)]}[kind]
+    return df
+
+
 def _build(pg, c):
+    if c["kind"] == "point" and c.get("row_labels"):
+        mat = c["material"] if not c["material_props"] else {"name": c["material"], **c["material_props"]}
+        return pg.PointIsotherm(isotherm_data=_labelled_frame(c), pressure_key="pressure", loading_key="loading", branch=list(c["branch"]),
+                                material=mat, adsorbate=c["adsorbate"], temperature=c["temperature"], **c["units"], **c["meta"])
     if c.get("fitted"):
         f = c["fitted"]
         mat = c["material"] if not c["material_props"] else {"name": c["material"], **c["material_props"]}
@@ -1093,7 +1219,7 @@ def _build(pg, c):
 
 
 def _content(c):
-    out = {k: c[k] for k in ("kind", "units", "temperature", "material", "material_props", "adsorbate") if k in c}
+    out = {k: c[k] for k in ("kind", "units", "temperature", "material", "material_props", "adsorbate", "row_labels") if k in c}
     for k in ("pressure", "loading", "branch", "extra", "model", "fitted"):
         if k in c:
             out[k] = _js(c[k])
@@ -1229,7 +1355,7 @@ def _diff(a, b, fmt, tol=0.5e-8):
         va, vb = da.get(k, "<absent>"), db.get(k, "<absent>")
         if k not in da or k not in db:
             out.append((f"metadata key {k!r}", repr(va)[:60], repr(vb)[:60], _vclass(da.get(k)) if k in da else "added"))
-        elif not isogen.same_value(va, vb, tol=1e-12):
+        elif not isogen.same_value(va, vb, tol=1e-12) or not _exact_ints(va, vb):
             out.append((f"metadata {k!r}", repr(va)[:60], repr(vb)[:60], _vclass(va)))
     if "columns" in a or "columns" in b:
         ca, cb = a.get("columns", {}), b.get("columns", {})
